@@ -18,7 +18,58 @@ RULE = ("for each generated repodata document / metadata file: one traced run nu
 THEOREMS = ["no_write_before_output", "failure_leaves_file", "success_writes_once", "fault_anywhere_before_output", "success_writes_signed_document"]
 
 
+
+class FinalReady:
+    """probe for "the result has been fully serialized": patches json.JSONEncoder.encode (which json.dumps and encoder objects go through) and
+    notes when a call returns exactly the text of the document that a successful run writes.  Independent of how the library organises its code."""
+
+    def __init__(self):
+        import json
+        self.json = json
+        self.real = json.JSONEncoder.encode
+        self.expected = None
+        self.ready = False
+        self.calls = 0
+
+    def __enter__(self):
+        outer = self
+
+        def encode(enc_self, o):
+            r = outer.real(enc_self, o)
+            outer.calls += 1
+            if outer.expected is not None and r.encode("utf-8", "surrogatepass") == outer.expected:
+                outer.ready = True
+            return r
+        self.json.JSONEncoder.encode = encode
+        faults.PROBE = lambda: self.ready
+        return self
+
+    def __exit__(self, *a):
+        self.json.JSONEncoder.encode = self.real
+        faults.PROBE = None
+        return False
+
+    def arm(self, expected):
+        self.expected, self.ready, self.calls = expected, False, 0
+
+
+def judge(log, after, orig, raised):
+    """per run: None = fine; otherwise the clause that failed.  The output phase of *this* run begins at its first event that can modify the
+    target; it is legitimate only if the final document had been serialized by then.  A fault after a legitimate start is outside the property."""
+    t = faults.touches(log)
+    if t and not t[0][3]:
+        return "early"
+    if raised and after != orig and not t:
+        return "modified-unobserved"
+    return None
+
+
 def run(ck: Check) -> None:
+    with FinalReady() as probe:
+        _run(ck, probe)
+
+
+def _run(ck: Check, probe) -> None:
     from .. import impl
 
     rng = ck.rng
@@ -38,22 +89,31 @@ def run(ck: Check) -> None:
         def call():
             impl.signing.sign_all_in_repodata(fn, k.seed.hex())
         open(fn, "wb").write(orig)
+        probe.arm(None)
         with impl.quiet_stdout():
             exc, nevents, log = faults.run_traced(call, fn, pkg)
         ck.evaluations += 1
         if exc is not None:
             ck.violation("signing a well-formed repodata file failed", {"error": repr(exc)[:300]}, "c18-baseline-failed")
             continue
-        modes = [m for _, m, _ in log]
-        ck.oracle_checks += 1
-        if not (len(modes) == 2 and "r" in modes[0] and "w" in modes[1]):
-            ck.violation("the target file is not opened exactly once for reading and once, afterwards, for writing", {"opens": log}, "c18-open-sequence")
-            continue
-        write_at = log[1][2]          # line-event number at which the output file was opened
         signed = open(fn, "rb").read()
+        # the same run again, now knowing the result: when is the target first touched, and was the result complete by then?
+        open(fn, "wb").write(orig)
+        probe.arm(signed)
+        with impl.quiet_stdout():
+            exc, nevents, log = faults.run_traced(call, fn, pkg)
+        ck.oracle_checks += 1
+        t = faults.touches(log)
+        if exc is not None or open(fn, "rb").read() != signed or not t or not faults.reads(log):
+            ck.violation("a repeated run on the same file does not read it, produce the same result and write it", {"events": log, "error": repr(exc)[:200]}, "c18-open-sequence")
+            continue
+        if not t[0][3]:
+            ck.violation("the output file was touched (opened for writing / replaced) before the result was fully serialized", {"events": log}, "c18-early-open")
+            continue
+        write_at = t[0][2]          # line-event number of the first event that can modify the target
         lines.append("signrepofile " + proto.enc(doc) + " " + proto.enc(k.seed.hex()))
         expect_opens.append(signed)
-        # a fault at every line event before the output phase
+        # a fault at every line event up to there (in a later run the same event number may fall elsewhere, e.g. with caches: each run is judged on its own events)
         points = list(range(1, write_at + 1))
         if not ck.thorough and len(points) > 400:
             points = sorted(rng.sample(points, 400))
@@ -61,21 +121,21 @@ def run(ck: Check) -> None:
             ck.exhaustive = True
         for p in points:
             open(fn, "wb").write(orig)
+            probe.arm(signed)
             with impl.quiet_stdout():
                 exc, _, log2 = faults.run_traced(call, fn, pkg, fault_at=p)
             ck.evaluations += 1
             total_points += 1
             ck.oracle_checks += 1
             after = open(fn, "rb").read()
-            if not isinstance(exc, faults.InjectedFault):
-                ck.notes.append(f"fault at event {p} did not surface as the injected exception: {exc!r}"[:200])
-            if after != orig:
-                ck.violation("a failure before the output phase left a modified (partially signed / truncated) file",
-                             {"fault": str(exc)[:200], "event": p, "of": write_at, "opens": log2, "file_len_before": len(orig), "file_len_after": len(after), "document": proto.enc(doc)[:600]},
-                             f"c18-modified:{str(exc).split(': ')[-1] if exc else 'none'}")
+            verdict = judge(log2, after, orig, exc is not None)
+            if verdict == "early" or verdict == "modified-unobserved":
+                ck.violation("a failure before the output phase left a modified (partially signed / truncated) file, or the output was touched before the result was complete",
+                             {"fault": str(exc)[:200], "event": p, "of": write_at, "events": log2, "file_len_before": len(orig), "file_len_after": len(after), "document": proto.enc(doc)[:600]},
+                             ("c18-early-open" if verdict == "early" else "c18-modified") + f":{str(exc).split(': ')[-1] if exc else 'none'}")
                 break
-            if any("w" in m for _, m, _ in log2):
-                ck.violation("the output file was opened for writing before all signatures were computed", {"fault": str(exc)[:200], "opens": log2}, "c18-early-open")
+            if exc is not None and not faults.touches(log2) and after != orig:
+                ck.violation("a failed run modified the file", {"fault": str(exc)[:200]}, "c18-modified")
                 break
             if p > write_at // 3:
                 ck.nontrivial_add((di, p))
@@ -89,6 +149,7 @@ def run(ck: Check) -> None:
         impl.common.canonserialize = impl.signing.canonserialize = counting
         try:
             open(fn, "wb").write(orig)
+            probe.arm(signed)
             with impl.quiet_stdout():
                 faults.run_traced(call, fn, pkg)
         finally:
@@ -103,14 +164,17 @@ def run(ck: Check) -> None:
                     raise MemoryError("out of memory while serializing")
                 return real_cs(obj)
             impl.common.canonserialize = impl.signing.canonserialize = failing_cs
+            probe.arm(signed)
             try:
                 with impl.quiet_stdout():
                     exc, _, logs = faults.run_traced(call, fn, pkg)
             finally:
                 impl.common.canonserialize = impl.signing.canonserialize = real_cs
             ck.evaluations += 1
+            if not isinstance(exc, MemoryError):
+                continue            # the library did not route this serialization through the patched name: nothing was injected
             ck.oracle_checks += 1
-            if open(fn, "rb").read() != orig or any("w" in m for _, m, _ in logs):
+            if open(fn, "rb").read() != orig or faults.touches(logs):
                 ck.violation("a failure while serializing (artifact metadata or the final document) left a truncated / modified file: the output was opened before the result was serialized",
                              {"serializer_call": j, "of": total_ser, "opens": logs, "error": repr(exc)[:120]}, "c18-serialize-fault-modified:" + ("final" if j == total_ser else "artifact"))
                 break
@@ -128,14 +192,17 @@ def run(ck: Check) -> None:
                     raise RuntimeError("hardware key unplugged")
                 return real(obj, key)
             impl.signing.serialize_and_sign = failing
+            probe.arm(signed)
             try:
                 with impl.quiet_stdout():
                     exc, _, log3 = faults.run_traced(call, fn, pkg)
             finally:
                 impl.signing.serialize_and_sign = real
             ck.evaluations += 1
+            if not (isinstance(exc, RuntimeError) and "unplugged" in str(exc)):
+                continue            # the library did not go through the patched name: nothing was injected
             ck.oracle_checks += 1
-            if open(fn, "rb").read() != orig or any("w" in m for _, m, _ in log3):
+            if open(fn, "rb").read() != orig or faults.touches(log3):
                 ck.violation("an error while signing the j-th artifact left a modified file", {"artifact_index": j, "of": nart, "opens": log3}, "c18-sign-fault-modified")
             ck.nontrivial_add((di, "sign", j))
     ck.count("fault-points", total_points)
@@ -198,13 +265,48 @@ def run(ck: Check) -> None:
         if isinstance(key, (str, type(None))):
             ans = ck.driver.run([f"signsteps x{content.hex()} {proto.enc(key)} -"])[0]
             parts = dict(p.split("=", 1) for p in ans.split(" ")[1:] if "=" in p)
-            want_opens = "".join("r" if "r" in m else "w" for _, m, _ in log)
+            want_opens = ("r" if faults.reads(log) else "") + ("w" if faults.touches(log) else "")
             mclass = ans.split(" ")[0]
             iclass = "failed:" + (impl.classify(exc) if exc else "none")
             if not (mclass == iclass and parts.get("file") == content.hex() and parts.get("opens") == want_opens):
                 ck.mismatch_total += 1
                 ck.mismatch_kinds["step-machine:malformed:" + name] = 1
                 ck.mismatches.append({"corr": "corr:in-place-signing/open-sequence+file-bytes", "line": f"signsteps <{name}>", "impl": f"{iclass} opens={want_opens}", "model": ans[:200], "tag": name, "meta": {}, "stdout_encoding": "utf-8"})
+    # leftovers of earlier (crashed) runs next to the file — temporary / partial / backup siblings holding other, well-formed content — change nothing:
+    # a failing call leaves the target as it was, a successful one gives the result it gives without them
+    sib_doc = gen.oracle_bytes({"packages": {"evil": {"n": 0}}, "signatures": {"evil": {}}})
+    def plant():
+        for suffix in (".partial", ".tmp", ".bak", ".new", "~", ".swp", ".lock"):
+            with open(fn + suffix, "wb") as f:
+                f.write(sib_doc)
+    def unplant():
+        for suffix in (".partial", ".tmp", ".bak", ".new", "~", ".swp", ".lock"):
+            if os.path.exists(fn + suffix):
+                os.unlink(fn + suffix)
+    try:
+        for name, content, key in bads[:6]:
+            open(fn, "wb").write(content)
+            plant()
+            with impl.quiet_stdout():
+                exc, _, log = faults.run_traced(lambda: impl.signing.sign_all_in_repodata(fn, key), fn, pkg)
+            ck.evaluations += 1
+            ck.oracle_checks += 1
+            if open(fn, "rb").read() != content:
+                ck.violation("a failing call modified the file when stale sibling files (partial / temporary / backup) were present", {"case": name, "error": repr(exc)[:200]}, "c18-sibling-modified:" + name)
+        open(fn, "wb").write(good)
+        unplant()
+        with impl.quiet_stdout():
+            impl.signing.sign_all_in_repodata(fn, gen.key(1).seed.hex())
+        clean_result = open(fn, "rb").read()
+        open(fn, "wb").write(good)
+        plant()
+        with impl.quiet_stdout():
+            impl.signing.sign_all_in_repodata(fn, gen.key(1).seed.hex())
+        ck.oracle_checks += 1
+        if open(fn, "rb").read() != clean_result:
+            ck.violation("the result of signing depends on stale sibling files next to the target", {}, "c18-sibling-influence")
+    finally:
+        unplant()
     # the CLI aborts before touching the file on a bad key
     kf = os.path.join(d, "c18-key.txt")
     for name, text in [("bad", "not a key"), ("short", "ab" * 31), ("empty", "")]:
@@ -215,7 +317,7 @@ def run(ck: Check) -> None:
             exc, _, log = faults.run_traced(lambda: climod.cli_sign_artifacts(types.SimpleNamespace(repodata_fname=fn, private_key_fname=kf)), fn, pkg)
         ck.evaluations += 1
         ck.oracle_checks += 1
-        if open(fn, "rb").read() != good or log:
+        if open(fn, "rb").read() != good or faults.touches(log):
             ck.violation("the CLI touched the repodata file although the key file was rejected", {"key_file": name, "opens": log}, "c18-cli-bad-key")
     # GPG path: load, sign in memory, write — faults at every line, from the signer, and a missing optional dependency
     k = gen.key(2)
@@ -229,21 +331,33 @@ def run(ck: Check) -> None:
         def gcall():
             impl.root_signing.sign_root_metadata_via_gpg(mfn, fpr)
         open(mfn, "wb").write(orig)
+        probe.arm(None)
         with impl.quiet_stdout():
             exc, nevents, log = faults.run_traced(gcall, mfn, pkg)
+        gsigned = open(mfn, "rb").read()
+        open(mfn, "wb").write(orig)
+        probe.arm(gsigned)
+        with impl.quiet_stdout():
+            exc2, nevents, log = faults.run_traced(gcall, mfn, pkg)
         ck.evaluations += 1
-        if exc is not None or len(log) != 2:
-            ck.violation("GPG-path signing of a well-formed file failed or opened the file unexpectedly", {"error": repr(exc)[:200], "opens": log}, "c18-gpg-baseline")
+        t = faults.touches(log)
+        if exc is not None or exc2 is not None or not t or not faults.reads(log) or open(mfn, "rb").read() != gsigned:
+            ck.violation("GPG-path signing of a well-formed file failed or did not read and then write the file", {"error": repr(exc or exc2)[:200], "events": log}, "c18-gpg-baseline")
             continue
-        write_at = log[1][2]
+        if not t[0][3]:
+            ck.violation("GPG path: the output file was touched before the result was fully serialized", {"events": log}, "c18-gpg-early-open")
+            continue
+        write_at = t[0][2]
         for p in range(1, write_at + 1):
             open(mfn, "wb").write(orig)
+            probe.arm(gsigned)
             with impl.quiet_stdout():
                 exc, _, log2 = faults.run_traced(gcall, mfn, pkg, fault_at=p)
             ck.evaluations += 1
             ck.oracle_checks += 1
-            if open(mfn, "rb").read() != orig or any("w" in m for _, m, _ in log2):
-                ck.violation("GPG path: a failure before the output phase left a modified file", {"fault": str(exc)[:200], "opens": log2}, "c18-gpg-modified")
+            after = open(mfn, "rb").read()
+            if judge(log2, after, orig, exc is not None) is not None or (exc is not None and not faults.touches(log2) and after != orig):
+                ck.violation("GPG path: a failure before the output phase left a modified file", {"fault": str(exc)[:200], "events": log2}, "c18-gpg-modified")
                 break
             ck.nontrivial_add(("gpg", mi, p))
         for label, setup in (("signer-error", lambda: gpgshim.FAIL_NEXT.append(ValueError("gpg: signing failed: No secret key"))),
@@ -270,7 +384,7 @@ def run(ck: Check) -> None:
             ck.count("gpg-fault:" + label + ":" + (type(exc).__name__ if exc else "no-error"))
             if exc is None:
                 ck.violation("GPG path did not fail although the signer / dependency failed", {"case": label}, "c18-gpg-fault-ignored:" + label)
-            if open(mfn, "rb").read() != orig or any("w" in m for _, m, _ in log3):
+            if open(mfn, "rb").read() != orig or faults.touches(log3):
                 ck.violation("GPG path: a failed call modified the file", {"case": label, "opens": log3}, "c18-gpg-fault-modified:" + label)
 
 
